@@ -120,7 +120,9 @@ Fixpoint ends_with_slash (s : string) : bool :=
   | String a EmptyString => Ascii.eqb a slash
   | String _ s' => ends_with_slash s'
   end.
-Definition path_of (s : string) : path := mkPath (is_abs s) (parts s) (ends_with_slash s).
+(* getNode's special case: the whole path "." (like "/") is the root *)
+Definition path_of (s : string) : path :=
+  if String.eqb s "." then mkPath false [] false else mkPath (is_abs s) (parts s) (ends_with_slash s).
 (* filepath.Dir = Clean of everything up to the last slash (so a trailing slash
    keeps every component); filepath.Base = the raw last component *)
 Definition pdir (p : path) : path :=
